@@ -5,6 +5,7 @@ use tsmodel::{parse, Decl, Env, Ty};
 
 use crate::{Args, Log, TypeEntry};
 
+pub mod exports;
 pub mod fsutil;
 pub mod history;
 pub mod libtypes;
@@ -22,6 +23,7 @@ pub fn dispatch(args: &Args, reg: &[TypeEntry], log: &mut Log) {
         "C08" => paths::c08(args, log),
         "C12" => libtypes::c12(args, log),
         "C17" => history::c17(args, reg, log),
+        "exports" => exports::exports(args, reg, log),
         "dump" => dump(reg, log),
         other => panic!("unknown monitor {other}"),
     }
